@@ -125,7 +125,7 @@ def bounds_programs(first_id):
         pid = first_id + i
         asy = "async" in kind
         if asy:
-            m = "pub fn m_%d() -> String { %s let __s = { let __r = run_async_val(async { %s! { %s }.await }); dbg(%s) }; __s }" % (pid, prelude, kind, body, result)
+            m = "pub fn m_%d() -> String { %s let __s = { let __r = run_async_local(async { %s! { %s }.await }); dbg(%s) }; __s }" % (pid, prelude, kind, body, result)
         else:
             m = "pub fn m_%d() -> String { %s let __r = %s! { %s }; dbg(%s) }" % (pid, prelude, kind, body, result)
         r = "pub fn r_%d() -> String { String::from(%s) }" % (pid, rs(expected))
